@@ -630,7 +630,7 @@ func NewContractSet() *ContractSet {
 var clauseKeywords = map[string]bool{
 	"func": true, "interface": true, "extern": true, "ghost": true, "axiom": true, "lemma": true,
 	"props": true, "requires": true, "ensures": true, "loop": true, "modifies": true, "trusted": true,
-	"marks": true, "assert": true, "assumed": true, "pure": true, "nosafety": true, "opt": true, "package": true, "import": true, "inline": true,
+	"marks": true, "records": true, "assert": true, "assumed": true, "pure": true, "nosafety": true, "opt": true, "package": true, "import": true, "inline": true,
 }
 
 // ParseContractText parses the //@ lines of one file. pkgPath is the package the
@@ -835,17 +835,18 @@ func (cs *ContractSet) ParseContractText(file string, pkgPath string, lines []st
 				// records G = e: every call of this function is logged in the ghost variable G (a call
 				// log has no counterpart in the code, so the clause is definitional: callers see G
 				// change to e — evaluated over the pre-state — and nothing else changes G)
-				eq := strings.Index(rest, "=")
-				if eq < 0 {
-					return errf("records needs `G = expr`")
+				if eq := strings.Index(rest, "="); eq < 0 {
+					// records G: calls are logged in G; what is logged is said by `marks` clauses
+					cur.Records = append(cur.Records, strings.TrimSpace(rest))
+				} else {
+					g := strings.TrimSpace(rest[:eq])
+					c, err := mkClause("marks", g+" == ("+strings.TrimSpace(rest[eq+1:])+")")
+					if err != nil {
+						return err
+					}
+					cur.Marks = append(cur.Marks, c)
+					cur.Records = append(cur.Records, g)
 				}
-				g := strings.TrimSpace(rest[:eq])
-				c, err := mkClause("marks", g+" == ("+strings.TrimSpace(rest[eq+1:])+")")
-				if err != nil {
-					return err
-				}
-				cur.Marks = append(cur.Marks, c)
-				cur.Records = append(cur.Records, g)
 			case "loop":
 				nstr, r2 := splitFirst(rest)
 				n, err := strconv.Atoi(nstr)
